@@ -25,15 +25,7 @@ from sa.model import AnalysisError, Project  # noqa: E402
 from sa import report as R  # noqa: E402
 
 
-def run_property(prop: str, project: Project, tier: str) -> R.Report:
-    mod = importlib.import_module(f"sa.checks.{prop.lower()}")
-    rep = R.Report(prop=prop, tier=tier)
-    try:
-        mod.check(project, rep)
-    except R.Abort as e:
-        rep.notes.append(f"analysis stopped early after a finding: {e}")
-    rep.check_nonvacuous()
-    return rep
+from sa.runner import run_property  # noqa: E402
 
 
 def main(argv=None) -> int:
